@@ -1581,6 +1581,47 @@ package grpctunnel
 
 // The pooled channel over all reverse tunnels is wired to the handler's own
 // global registry; the per-key one (KeyAsChannel$1..3 below) to the key asked for.
+// Constructors: the options reach the fields the rest of the package reads.
+//@ func NewTunnelServiceHandler
+//@   ensures[C11] @flowcontrol result.tunnelOpts.disableFlowControl == options.DisableFlowControl
+//@   ensures[C12] @callbacks   result.onReverseTunnelConnect == options.OnReverseTunnelOpen && result.onReverseTunnelDisconnect == options.OnReverseTunnelClose && result.affinityKey == options.AffinityKey
+//@   ensures[C12] @registry    result.reverse != nil && result.reverseByKey != nil
+//@   ensures[C12] @switch      result.noReverseTunnels == options.NoReverseTunnels
+//@   ensures[C08] @handlers    result.handlers != nil
+//@   ensures fresh(result)
+//@   assigns nothing
+
+//@ interface TunnelOption.apply (opts)
+//@   assigns opts.disableFlowControl
+//@ func NewReverseTunnelServer
+//@   loop 1 invariant[C11] @target r != nil && r.stub == stub && r.state == 0
+//@   at call apply#1
+//@     assert[C11] @ownopts arg0 == r.opts
+//@   ensures[C10] @active result != nil && result.stub == stub
+//@   assigns *
+//@ func NewChannel
+//@   loop 1 invariant[C11] @target p != nil && p.stub == stub
+//@   at call apply#1
+//@     assert[C11] @ownopts arg0 == p.opts
+//@   ensures[C11] @pending result is *pendingChannel
+//@   assigns *
+//@ func (tunnelOptFunc).apply
+//@   inline
+
+//@ func (*TunnelServiceHandler).Service
+//@   ensures[C08,C10] @self result is *tunnelServiceHandler && as(result, *tunnelServiceHandler).h == s
+//@   assigns nothing
+
+//@ func (*tunnelServiceHandler).OpenTunnel
+//@   at call openTunnel#1
+//@     assert[C08] @delegates arg0 == s.h && arg1 == stream
+//@   assigns *
+//@ func (*tunnelServiceHandler).OpenReverseTunnel
+//@   at call openReverseTunnel#1
+//@     assert[C12] @delegates arg0 == s.h && arg1 == stream
+//@   locks any TunnelServiceHandler.mu, any reverseChannels.mu, any tunnelChannel.mu
+//@   assigns *
+
 //@ func (*TunnelServiceHandler).AsChannel
 //@   requires s != nil
 //@   at store pick#1
